@@ -477,6 +477,23 @@ async fn round_general(seed: u64, hb: &Heartbeat, with_readers: bool, death_race
     for t in readers {
         let _ = tokio::task::spawn_blocking(move || t.join()).await;
     }
+    for (i, k) in keep.iter().enumerate() {
+        if let Some(rf) = k {
+            if hung_actors == 0 {
+                // the JoinHandle has resolved: is_alive must be false through a retained strong handle, upgrade still works
+                let w = ActorRef::downgrade(rf);
+                sh.log.push(K::Sample {
+                    actor: i,
+                    phase: "post-mortem",
+                    finished: true,
+                    alive: Some(rf.is_alive()),
+                    weak_alive: w.is_alive(),
+                    upgrade: w.upgrade().is_some(),
+                    model: sh.model_of(i),
+                });
+            }
+        }
+    }
     #[cfg(feature = "f_metrics")]
     for (i, k) in keep.iter().enumerate() {
         if let Some(rf) = k {
